@@ -225,7 +225,9 @@ type psim struct {
 	qpool    [][]cond
 }
 
-const canaryCap = 4096
+// canaries and ill-typed bundles are drained by the simulator after every action; the capacity only
+// has to hold one action's publications
+const canaryCap = 64
 
 func newPubsubSim(env *simcore.Env, cfg simcore.Op) simcore.Sim {
 	s := &psim{env: env, cfg: cfg, bus: cfg.Bool("bus"), reg: map[string]map[string]bool{}, pubs: map[int]*pubRec{},
@@ -878,7 +880,9 @@ func (s *psim) lost(o *subRec, id int, why string) {
 
 func (s *psim) checkSub(o *subRec, final bool) {
 	e := s.env
-	desc := func() string { return fmt.Sprintf("subscription %d (%s, %q, capacity %d)", o.idx, o.client, o.qstr, o.capacity) }
+	desc := func() string {
+		return fmt.Sprintf("subscription %d (%s, %q, capacity %d)", o.idx, o.client, o.qstr, o.capacity)
+	}
 	cancelled := isClosed(o.sub.Cancelled())
 	reason := ""
 	if cancelled {
@@ -990,7 +994,7 @@ func (s *psim) checkSub(o *subRec, final bool) {
 func (s *psim) checkAll(final bool) {
 	s.collectMailboxes()
 	for _, o := range s.subs {
-		if o.canary {
+		if o.canary || o.poison {
 			s.readN(o, canaryCap)
 		}
 	}
